@@ -265,8 +265,8 @@ theorem mem_boxes_of_items {d : Diagram} (hd : d.WF) {x : Box × Int} (h : x ∈
 
 theorem unsnake_left {d : Diagram} {y : Yank} {P M S : List (Box × Int)} {capI cupI : Box × Int}
     (hd : d.WF) (hv : d.boxesValid) (hs : SnakeAt d y P M S capI cupI) (hl : y.leftSnake = true) :
-    ∃ steps, d.unsnake y = .ok steps ∧ StepChain d steps ∧
-      (lastOr d steps).boxes.length + 2 = d.boxes.length := by
+    ∃ moves last, d.unsnake y = .ok (moves ++ [last]) ∧ IChain d moves ∧
+      ystep (lastOr d moves) last = true ∧ last.boxes.length + 2 = d.boxes.length := by
   obtain ⟨hcl, hty⟩ := hs.left hl
   have vcup : cupI.1.valid := hv _ (mem_boxes_of_items hd (by rw [hs.items]; simp))
   have hcupdom := (vcup.1 hs.kcup).1
@@ -281,14 +281,14 @@ theorem unsnake_left {d : Diagram} {y : Yank} {P M S : List (Box × Int)} {capI 
     rw [hs.cup]; omega
   obtain ⟨d2, S2, ro', acc2, hmv2, w2, dom2, cod2, it2, hS2, hch2, hla2⟩ :=
     moveRightDown M1.length (acc := [] ++ acc1) rfl w1 it1 hcond ht2
-  have ok1 := StepChain.last_ok hd hv hch1
+  have ok1 := StepChain.last_ok hd hv hch1.stepChain
   rw [hla1] at ok1
-  have ok2 := StepChain.last_ok ok1.1 ok1.2 hch2
+  have ok2 := StepChain.last_ok ok1.1 ok1.2 hch2.stepChain
   rw [hla2] at ok2
   have hv2 : d2.boxesValid := ok2.2
   obtain ⟨d3, hrp, hys, hlen3⟩ := yank_final w2 hv2 it2 (by rw [hc1]; exact hs.kcap) hs.kcup
     (Or.inl ⟨by omega, by rw [hc1]; exact hty⟩)
-  refine ⟨([] ++ acc1 ++ acc2) ++ [d3], ?_, ?_, ?_⟩
+  refine ⟨[] ++ acc1 ++ acc2, d3, ?_, ?_, ?_, ?_⟩
   · unfold Diagram.unsnake
     rw [if_pos hl, hmv1]
     dsimp only
@@ -296,11 +296,11 @@ theorem unsnake_left {d : Diagram} {y : Yank} {P M S : List (Box × Int)} {capI 
     dsimp only
     rw [hrp]
   · simp only [List.nil_append]
-    refine StepChain.append (StepChain.append hch1 (by rw [hla1]; exact hch2)) ?_
+    exact IChain.append hch1 (by rw [hla1]; exact hch2)
+  · simp only [List.nil_append]
     rw [lastOr_append2, hla1, hla2]
-    exact ⟨by rw [hys]; simp, trivial⟩
-  · rw [lastOr_append]
-    have e1 := Diagram.items_length hd
+    exact hys
+  · have e1 := Diagram.items_length hd
     have e2 := Diagram.items_length w2
     rw [hs.items] at e1; rw [it2] at e2
     simp only [List.length_append, List.length_cons] at e1 e2
@@ -308,8 +308,8 @@ theorem unsnake_left {d : Diagram} {y : Yank} {P M S : List (Box × Int)} {capI 
 
 theorem unsnake_right {d : Diagram} {y : Yank} {P M S : List (Box × Int)} {capI cupI : Box × Int}
     (hd : d.WF) (hv : d.boxesValid) (hs : SnakeAt d y P M S capI cupI) (hl : y.leftSnake = false) :
-    ∃ steps, d.unsnake y = .ok steps ∧ StepChain d steps ∧
-      (lastOr d steps).boxes.length + 2 = d.boxes.length := by
+    ∃ moves last, d.unsnake y = .ok (moves ++ [last]) ∧ IChain d moves ∧
+      ystep (lastOr d moves) last = true ∧ last.boxes.length + 2 = d.boxes.length := by
   obtain ⟨hcl, hty⟩ := hs.right hl
   have vcup : cupI.1.valid := hv _ (mem_boxes_of_items hd (by rw [hs.items]; simp))
   have vcap : capI.1.valid := hv _ (mem_boxes_of_items hd (by rw [hs.items]; simp))
@@ -326,16 +326,16 @@ theorem unsnake_right {d : Diagram} {y : Yank} {P M S : List (Box × Int)} {capI
   have ht2 : (y.cap : Int) = (P.length : Int) := by rw [hs.cap]
   obtain ⟨d2, P2, ro', acc2, hmv2, w2, dom2, cod2, it2, hP2, hch2, hla2⟩ :=
     moveRightUp M1.length (acc := [] ++ acc1) rfl w1 it1 hcond ht2
-  have ok1 := StepChain.last_ok hd hv hch1
+  have ok1 := StepChain.last_ok hd hv hch1.stepChain
   rw [hla1] at ok1
-  have ok2 := StepChain.last_ok ok1.1 ok1.2 hch2
+  have ok2 := StepChain.last_ok ok1.1 ok1.2 hch2.stepChain
   rw [hla2] at ok2
   have hv2 : d2.boxesValid := ok2.2
   obtain ⟨d3, hrp, hys, hlen3⟩ := yank_final w2 hv2 it2 hs.kcap (by rw [hc1]; exact hs.kcup)
     (Or.inr ⟨by omega, by rw [hc1]; exact hty⟩)
   have ecup : ((P.length + 1 + M1.length : Nat) : Int) = (P2.length : Int) + 1 := by omega
   rw [ecup] at hmv1
-  refine ⟨([] ++ acc1 ++ acc2) ++ [d3], ?_, ?_, ?_⟩
+  refine ⟨[] ++ acc1 ++ acc2, d3, ?_, ?_, ?_, ?_⟩
   · unfold Diagram.unsnake
     rw [if_neg (by simp [hl]), hmv1]
     dsimp only
@@ -343,26 +343,35 @@ theorem unsnake_right {d : Diagram} {y : Yank} {P M S : List (Box × Int)} {capI
     dsimp only
     rw [hrp]
   · simp only [List.nil_append]
-    refine StepChain.append (StepChain.append hch1 (by rw [hla1]; exact hch2)) ?_
+    exact IChain.append hch1 (by rw [hla1]; exact hch2)
+  · simp only [List.nil_append]
     rw [lastOr_append2, hla1, hla2]
-    exact ⟨by rw [hys]; simp, trivial⟩
-  · rw [lastOr_append]
-    have e1 := Diagram.items_length hd
+    exact hys
+  · have e1 := Diagram.items_length hd
     have e2 := Diagram.items_length w2
     rw [hs.items] at e1; rw [it2] at e2
     simp only [List.length_append, List.length_cons] at e1 e2
     omega
 
-/-- `unsnake` on any result of `find_snake`: it never raises, every yielded diagram is a legal
-    step (one interchange, or the final yank of the adjacent pair), two boxes disappear. -/
-theorem unsnake_ok {d : Diagram} {y : Yank} (hd : d.WF) (hv : d.boxesValid)
+/-- `unsnake` on any result of `find_snake`: it never raises; every diagram it yields but the last
+    is one legal interchange away from its predecessor; the last one is the yank of an ADJACENT
+    cap/cup pair joined straight (so the index updates did bring them together); two boxes go. -/
+theorem unsnake_shape {d : Diagram} {y : Yank} (hd : d.WF) (hv : d.boxesValid)
     (h : d.findSnake = some y) :
-    ∃ steps, d.unsnake y = .ok steps ∧ StepChain d steps ∧
-      (lastOr d steps).boxes.length + 2 = d.boxes.length := by
+    ∃ moves last, d.unsnake y = .ok (moves ++ [last]) ∧ IChain d moves ∧
+      ystep (lastOr d moves) last = true ∧ last.boxes.length + 2 = d.boxes.length := by
   obtain ⟨P, M, S, capI, cupI, hs⟩ := findSnake_snakeAt hd h
   cases hl : y.leftSnake with
   | true => exact unsnake_left hd hv hs hl
   | false => exact unsnake_right hd hv hs hl
+
+theorem unsnake_ok {d : Diagram} {y : Yank} (hd : d.WF) (hv : d.boxesValid)
+    (h : d.findSnake = some y) :
+    ∃ steps, d.unsnake y = .ok steps ∧ StepChain d steps ∧
+      (lastOr d steps).boxes.length + 2 = d.boxes.length := by
+  obtain ⟨moves, last, hu, hch, hys, hlen⟩ := unsnake_shape hd hv h
+  refine ⟨moves ++ [last], hu, StepChain.append hch.stepChain ⟨by rw [hys]; simp, trivial⟩, ?_⟩
+  rw [lastOr_append]; exact hlen
 
 /-! ### The loop -/
 
